@@ -455,6 +455,23 @@ class Composer(metaclass=abc.ABCMeta):
         return composite.get_parameters()
 
 
+def _overrides_for(overrides: dict, processes: dict) -> dict:
+    '''The part of ``overrides`` that names entries of ``processes``.
+
+    Processes and steps are generated separately, so overrides naming a
+    step are not present among the processes (and vice versa), also
+    inside a nested compartment that holds both.
+    '''
+    present = {}
+    for key, override in overrides.items():
+        if key not in processes:
+            continue
+        if isinstance(processes[key], dict):
+            override = _overrides_for(override, processes[key])
+        present[key] = override
+    return present
+
+
 class MetaComposer(Composer):
 
     def __init__(
@@ -486,10 +503,8 @@ class MetaComposer(Composer):
             if method in ('generate_processes', 'generate_steps'):
                 # the schema overrides the composer was configured with
                 # ('_schema'), as its own generate() applies them
-                _override_schemas({
-                    key: override
-                    for key, override in composer.schema_override.items()
-                    if key in new}, new)
+                _override_schemas(
+                    _overrides_for(composer.schema_override, new), new)
             if set(combined.keys()) & set(new.keys()):
                 raise ValueError(
                     f"{set(combined.keys())} and "
